@@ -482,6 +482,29 @@ def handle (line : String) : String :=
       some (match prepare F P W with
         | .ok (_, kp) => showBound (decoratedCall F P kp args kws)
         | .error e => "err " ++ showErr e)
+    | "deccallend" :: st :: ex :: a :: k :: p :: [] => do
+      -- posoargs(end=st, *ex): the names are computed from the function, then the call is translated
+      let F ← parseParams p
+      let s0 ← st.toNat?
+      let e0 ← parseNats ex "."
+      let args ← parseNats a "."
+      let kws ← parsePairs k "."
+      some (match endNames F s0 e0 with
+        | .error e => "err " ++ showErr e
+        | .ok P => match prepare F P [] with
+          | .ok (_, kp) => showBound (decoratedCall F P kp args kws)
+          | .error e => "err " ++ showErr e)
+    | "deccallstart" :: st :: ex :: a :: k :: p :: [] => do
+      let F ← parseParams p
+      let s0 ← st.toNat?
+      let e0 ← parseNats ex "."
+      let args ← parseNats a "."
+      let kws ← parsePairs k "."
+      some (match startNames F s0 e0 with
+        | .error e => "err " ++ showErr e
+        | .ok W => match prepare F [] W with
+          | .ok (_, kp) => showBound (decoratedCall F [] kp args kws)
+          | .error e => "err " ++ showErr e)
     | "startnames" :: st :: ex :: p :: [] => do
       let F ← parseParams p
       let s0 ← st.toNat?
